@@ -405,6 +405,8 @@ pub fn boundary_amount(ctx: &mut Ctx, cb: i128, mb: i128) -> i64 {
 }
 
 pub struct HistCfg {
+    /// the whole capacity (2^63-1) is paid to the merchant and refunded alternately
+    pub ping_pong: bool,
     /// occasionally force the first scalar a new state draws (its nonce) to the close tag — `Nonce::new`
     /// must redraw, so that every state the customer ever holds can be stored and read back
     pub close_tag_draws: bool,
@@ -423,6 +425,10 @@ pub fn run_history(ctx: &mut Ctx, w: &World, w2: &World, cfg: &HistCfg) -> bool 
         let lat = [0u64, 1, 2, 1 << 31, 1 << 32, 1 << 62, i64::MAX as u64 - 1, i64::MAX as u64];
         a.cb = lat[ctx.prng.gen_range(0..lat.len())];
         a.mb = lat[ctx.prng.gen_range(0..lat.len())];
+    }
+    if cfg.ping_pong {
+        let all = i64::MAX as u64;
+        if ctx.prng.gen_range(0..2) == 0 { a.cb = all; a.mb = 0; } else { a.cb = 0; a.mb = all; }
     }
     // a session with another merchant / channel supplies replies for replay faults
     let mut recorded: Vec<ReplyD> = vec![];
@@ -508,7 +514,7 @@ pub fn run_history(ctx: &mut Ctx, w: &World, w2: &World, cfg: &HistCfg) -> bool 
     let mut zero_draw_used = est_zero;
     for _ in 0..cfg.payments {
         let (cb, mb) = h.ledger;
-        let amount = if cfg.valid_bias && ctx.prng.gen_range(0..3) != 0 { crate::props::c02::valid_amount(ctx, cb as u64, mb as u64) } else { boundary_amount(ctx, cb, mb) };
+        let amount = if cfg.ping_pong { if cb > 0 { cb as i64 } else { -(mb as i64) } } else if cfg.valid_bias && ctx.prng.gen_range(0..3) != 0 { crate::props::c02::valid_amount(ctx, cb as u64, mb as u64) } else { boundary_amount(ctx, cb, mb) };
         let (ncb, nmb) = (cb - amount as i128, mb + amount as i128);
         let max = i64::MAX as i128;
         let expect_err: Option<&str> = if ncb < 0 { Some("insufficient-funds") } else if ncb > max { Some("amount-too-large") } else if nmb < 0 { Some("insufficient-funds") } else if nmb > max { Some("amount-too-large") } else { None };
